@@ -8,6 +8,9 @@ NI2  == Nm("NI2", INT)
 NS   == Nm("NS", STR)
 NSt  == Nm("NSt", St(<<Fld("F", INT)>>))
 NSt2 == Nm("NSt2", St(<<Fld("F", INT)>>))
+\* two different named struct types without fields (marker types)
+NE   == Nm("NE", St(<<>>))
+NE2  == Nm("NE2", St(<<>>))
 NA   == Nm("NA", A(INT))
 NP   == Nm("NP", P(INT))
 NSl  == Nm("NSl", S(INT))
@@ -53,7 +56,7 @@ LeavesQuick == {INT, STR, B("int64"), B("bool"), NI, NSt, NSt2, NA, ANY, Fn, St(
 LeavesFull  == AllBasics \cup {NI, NI2, NS, NSt, NSt2, NA, NP, NSl, NM, ANY, ERR, IFM, Fn, Ch, St(<<>>)}
 LeavesDeep  == {INT, STR, NI, NSt, NSt2, NA, ANY}
 LeavesTiny  == {INT, STR, NI, NSt}
-LeavesVal   == LeavesQuick \cup {NSl, NM, NP, NS, TAGGED, EMBTAG}
+LeavesVal   == LeavesQuick \cup {NSl, NM, NP, NS, TAGGED, EMBTAG, B("byte"), NE, NE2}
 LeavesPair  == {INT, NI, NSt, NSt2, NSl, S(INT), ANY}
 LeavesMini  == {INT, NSt, NSt2}
 LeavesPtr   == {INT, NSt, NSt2, P(INT), P(P(INT)), P(NSt), P(NSt2)}
